@@ -32,7 +32,7 @@ theorem mqttConnectionMade_inv {x : Option Nat} {w : World} (h : WInvX x w) (p :
       refine ⟨_, Prod.ext rfl a1, a2, a4, a6, armed_of_parts (hpa ▸ a9) ?_, fun hq0 => ?_⟩
       · exact hsub.mono a7 (fun r hr => by rw [req_of_reqs a3]; exact hr)
       · exact ⟨keeps_removed (fun r => by rw [req_of_reqs a3]) a6 a10 a11 a12,
-          q0_removed (fun r => by rw [req_of_reqs a3]; exact ⟨rfl, rfl⟩) a7 hq0⟩
+          q0_removed (fun r => by rw [req_of_reqs a3]; exact ⟨rfl, rfl, rfl⟩) a7 hq0⟩
     · simp only [hcs, Bool.false_eq_true, ↓reduceIte]
       obtain ⟨a1, a2, a3, a4, a5, a6⟩ := syncW_inv h p ppr hpp hlive
       refine ⟨_, rfl, a1, a2, a6, armed_of_parts a5 ?_, fun hq0 => ⟨(syncW_same p w).keeps, (syncW_same p w).q0 hq0⟩⟩
@@ -185,7 +185,7 @@ theorem handleCONNACK_full {w : World} (h : WInv w) (p : Nat) (ppr : Proto) (hpp
       have hppA : (acceptW w p ppr c.alarm tm .connected).protos.get? p = some { ppr with state := .connected } := by
         simp [acceptW, Dict.get?_set]
       obtain ⟨m1, m2, m3, m4, m5, m6⟩ := mqttConnectionMade_inv hA p { ppr with state := .connected } hppA hnl hsubAll
-      have hsA : CoreSame w (acceptW w p ppr c.alarm tm .connected) := ⟨rfl, rfl, rfl, rfl, fun _ => ⟨rfl, rfl⟩⟩
+      have hsA : CoreSame w (acceptW w p ppr c.alarm tm .connected) := ⟨rfl, rfl, rfl, rfl, fun _ => ⟨rfl, rfl, rfl⟩⟩
       obtain ⟨wM, hwM⟩ : ∃ wM, wM = (mqttConnectionMade p (acceptW w p ppr c.alarm tm .connected)).1 := ⟨_, rfl⟩
       have sM : mqttConnectionMade p (acceptW w p ppr c.alarm tm .connected) = (wM, none) := by rw [hwM]; exact Prod.ext rfl m1
       rw [← hwM] at m2 m3 m4 m5 m6
@@ -213,7 +213,7 @@ theorem handleCONNACK_full {w : World} (h : WInv w) (p : Nat) (ppr : Proto) (hpp
           obtain ⟨q1, q2, q3⟩ := loopRun_inv hL p _ hppL hnl ⟨true, c.keepalive, none⟩ rfl rfl
           obtain ⟨pprR, f1, f2, f3, f4, f5, _⟩ := q3.proto
           refine ⟨_, pprR, Prod.ext rfl q1, q2, f1, f2, f3, by rw [f4]; exact hnl, by rw [f5]; exact i1, by rw [q3.connReqs]; exact hcM, ?_,
-            ⟨q3.ents, q3.fired, q3.connReqs, q3.nextDfd, fun r => by rw [req_of_reqs q3.reqs]; exact ⟨rfl, rfl⟩⟩⟩
+            ⟨q3.ents, q3.fired, q3.connReqs, q3.nextDfd, fun r => by rw [req_of_reqs q3.reqs]; exact ⟨rfl, rfl, rfl⟩⟩⟩
           intro e he hea hq
           rw [q3.ents] at he
           rw [req_of_reqs q3.reqs]
@@ -223,7 +223,7 @@ theorem handleCONNACK_full {w : World} (h : WInv w) (p : Nat) (ppr : Proto) (hpp
       rw [t1]
       have hsD : ∀ (w0 : World) (pr0 : Proto) (o : Obs), Keeps w0 (connDoneW w0 p pr0 d o) ∧ (Q0 w0 → Q0 (connDoneW w0 p pr0 d o)) := fun w0 pr0 o =>
         ⟨keeps_fire rfl (fun _ => rfl) rfl rfl (fun d' hd' => by simp only [connDoneW, List.mem_cons]; exact Or.inr hd'),
-         fun hq => q0_core (w := w0) rfl (fun _ => ⟨rfl, rfl⟩) hq⟩
+         fun hq => q0_core (w := w0) rfl (fun _ => ⟨rfl, rfl, rfl⟩) hq⟩
       refine ⟨rfl, WInvX.close t2 ?_ ?_, fun hq0 => ?_⟩
       rotate_left 2
       · obtain ⟨k1, q1⟩ := m6 (hsA.q0 hq0)
@@ -250,9 +250,9 @@ theorem handleCONNACK_full {w : World} (h : WInv w) (p : Nat) (ppr : Proto) (hpp
         simp [acceptW, Dict.get?_set]
       obtain ⟨t1, t2⟩ := connTail hA p { ppr with state := .idle } hppA (by simp) cr c i1 i2 d hd hnl (.fail .state)
       rw [seq_ok s1, t1]
-      have hsA : CoreSame w (acceptW w p ppr c.alarm tm .idle) := ⟨rfl, rfl, rfl, rfl, fun _ => ⟨rfl, rfl⟩⟩
+      have hsA : CoreSame w (acceptW w p ppr c.alarm tm .idle) := ⟨rfl, rfl, rfl, rfl, fun _ => ⟨rfl, rfl, rfl⟩⟩
       refine ⟨rfl, t2, fun hq0 => ⟨hsA.keeps.trans (keeps_fire rfl (fun _ => rfl) rfl rfl
-        (fun d' hd' => by simp only [connDoneW, List.mem_cons]; exact Or.inr hd')), q0_core (w := acceptW w p ppr c.alarm tm .idle) rfl (fun _ => ⟨rfl, rfl⟩) (hsA.q0 hq0)⟩⟩
+        (fun d' hd' => by simp only [connDoneW, List.mem_cons]; exact Or.inr hd')), q0_core (w := acceptW w p ppr c.alarm tm .idle) rfl (fun _ => ⟨rfl, rfl, rfl⟩) (hsA.q0 hq0)⟩⟩
 
 theorem handleCONNACK_inv {w : World} (h : WInv w) (p : Nat) (ppr : Proto) (hpp : w.protos.get? p = some ppr)
     (hnl : ppr.lost = false) (hs : ppr.state = .connecting) (session : Bool) (rc : Nat) :
